@@ -45,6 +45,7 @@ void ed_neg_basic(ed_t r, const ed_t p) {
 
 	fp_copy(r->y, p->y);
 	fp_neg(r->x, p->x);
+	fp_copy(r->z, p->z);
 
 	r->coord = BASIC;
 }
